@@ -54,6 +54,11 @@
 static int x_capture_stdout;                      /* queue mode of the stream listeners: what present_data() writes is an observation */
 static ssize_t x_write_common(int fd, const void* buf, size_t n);
 #define write x_write_common
+/* queue mode: the clock read by get_presentation_time() stands still at a multiple of 2^32 ns, so that the distance to a packet's
+ * presentation time is its avtp_timestamp itself and the generated timestamps can aim at the carries of the timespec arithmetic */
+static unsigned long long x_fixed_now_ns;
+static int x_clock_gettime_common(clockid_t c, struct timespec* ts);
+#define clock_gettime x_clock_gettime_common
 #define create_listener_socket_udp real_create_listener_socket_udp
 #define create_listener_socket real_create_listener_socket
 #define create_talker_socket_udp real_create_talker_socket_udp
@@ -62,6 +67,7 @@ static ssize_t x_write_common(int fd, const void* buf, size_t n);
 #define setup_socket_address real_setup_socket_address
 #include "common/common.c"
 #undef write
+#undef clock_gettime
 #undef create_listener_socket_udp
 #undef create_listener_socket
 #undef create_talker_socket_udp
@@ -87,6 +93,12 @@ static void x_sayhex(const char* tag, const void* p, size_t n)
     if (x_report >= 0) { ssize_t w = write(x_report, b, k); (void)w; }
     free(b);
 }
+static int x_clock_gettime_common(clockid_t c, struct timespec* ts)
+{
+    if (!x_fixed_now_ns) return clock_gettime(c, ts);
+    ts->tv_sec = (time_t)(x_fixed_now_ns / 1000000000ULL); ts->tv_nsec = (long)(x_fixed_now_ns % 1000000000ULL);
+    return 0;
+}
 static ssize_t x_write_common(int fd, const void* buf, size_t n)
 {
     if (fd == STDOUT_FILENO && x_capture_stdout) { x_sayhex("W", buf, n); return (ssize_t)n; }
@@ -98,6 +110,9 @@ static ssize_t x_read_timer(int fd, void* buf, size_t n)        /* timeout() rea
     if (n >= sizeof one) { memcpy(buf, &one, sizeof one); return (ssize_t)sizeof one; }
     return -1;
 }
+/* POSIX leaves errno unspecified after a successful call: the intercepted calls leave a different stale value behind each time
+ * (EINTR, EAGAIN, 0, EBADF), as a restarted or earlier failed call would; a program must not consult errno after success */
+static void x_stale_errno(void) { static const int vals[4] = { EINTR, EAGAIN, 0, EBADF }; static unsigned k; errno = vals[k++ & 3]; }
 static jmp_buf x_end; static int x_end_armed;
 /* datagram source for every listener */
 static FILE* x_of; static long x_ooff;      /* text mode of the main-loop listeners: stdout is captured and reported per datagram */
@@ -117,6 +132,7 @@ static ssize_t x_recv(int fd, void* buf, size_t n, int flags)
     size_t l = x_len[x_cur] < n ? x_len[x_cur] : n;
     memcpy(buf, x_dg[x_cur], l);
     x_cur++;
+    x_stale_errno();
     return (ssize_t)l;
 }
 /* CAN side of the acf-can programs */
@@ -124,7 +140,7 @@ static ssize_t x_recv(int fd, void* buf, size_t n, int flags)
 #define X_NET_FD 1002
 static ssize_t x_write(int fd, const void* buf, size_t n)
 {
-    if (fd == X_CAN_FD) { x_sayhex("W", buf, n); return (ssize_t)n; }
+    if (fd == X_CAN_FD) { x_sayhex("W", buf, n); x_stale_errno(); return (ssize_t)n; }
     return write(fd, buf, n);
 }
 static ssize_t x_read(int fd, void* buf, size_t n)
@@ -133,6 +149,7 @@ static ssize_t x_read(int fd, void* buf, size_t n)
         if (x_cur >= x_nd) longjmp(x_end, 1);
         size_t l = x_len[x_cur] < n ? x_len[x_cur] : n;
         memcpy(buf, x_dg[x_cur], l); x_cur++;
+        x_stale_errno();
         return (ssize_t)l;
     }
     return read(fd, buf, n);
@@ -141,6 +158,7 @@ static ssize_t x_sendto(int fd, const void* buf, size_t n, int flags, const stru
 {
     (void)fd; (void)flags; (void)a; (void)al;
     x_sayhex("P", buf, n);
+    x_stale_errno();
     return (ssize_t)n;
 }
 static int x_maxpk = 0, x_npk = 0;
@@ -289,7 +307,7 @@ static void child(char** tok, int nt)
     /* queue mode (m[2] = 1): a zero-length token is a timer expiration; stdout of present_data() and the number of
      * "Sequence number mismatch" diagnostics per datagram are observations */
     FILE* ef = NULL; int saved2 = -1; long eoff = 0;
-    if (m[2] == 1) { x_capture_stdout = 1; ef = tmpfile(); saved2 = dup(2); if (ef) dup2(fileno(ef), 2); }
+    if (m[2] == 1) { x_capture_stdout = 1; x_fixed_now_ns = 395812103ULL << 32; ef = tmpfile(); saved2 = dup(2); if (ef) dup2(fileno(ef), 2); }
 #endif
     for (int i = 0; i < x_nd; i++) {
         int before = x_cur;
